@@ -52,6 +52,8 @@ def annotation(t, names, quote: bool = False) -> str:
         return "Vec"
     if k == "lab":
         return "Label"
+    if k == "trk":
+        return "Track"
     if k == "custom":
         return "Money"
     raise ValueError(k)
@@ -61,7 +63,7 @@ def default_of(t) -> str:
     k = t["k"]
     if k in DEFAULTS:
         return DEFAULTS[k]
-    if k in ("opt", "ref", "ext", "type", "alt", "custom", "lab"):
+    if k in ("opt", "ref", "ext", "type", "alt", "custom", "lab", "trk"):
         return "None"
     if k in ("list", "seq"):
         return "field(default_factory=list)"
@@ -150,8 +152,29 @@ class LabelMapping(AlternativeMapping[Label]):
 
 @dataclass
 class Title(Label):
-    """normally mapped, but inherits from an alternatively mapped class"""
+    """normally mapped, but inherits from an alternatively mapped class; refers back into the model (cycles)"""
     size: int = 0
+    owner: Optional[C0] = None
+
+
+class Track:
+    """not a dataclass; its alternative mapping builds mapped helper objects (Vec) on the fly while converting"""
+
+    def __init__(self, key, points):
+        self.key, self.points = key, points
+
+
+@dataclass
+class TrackMapping(AlternativeMapping[Track]):
+    key: int
+    points: List[Vec]
+
+    @classmethod
+    def create_instance(cls, obj):
+        return cls(obj.key, [Vec(x, y) for x, y in obj.points])
+
+    def create_from_dao(self):
+        return Track(self.key, [(v.x, v.y) for v in self.points])
 
 
 class Money:
@@ -300,7 +323,7 @@ def model_ir(draw, max_classes=6, grammar="diagram", allow_self=True, allow_ext=
             kind = draw(st.sampled_from(["scalar", "scalar", "opt_scalar", "list_builtin", "ref", "opt_ref", "coll_ref", "coll_ref"]
                                         + (["type"] if allow_type and grammar == "diagram" else [])
                                         + (["ext"] if allow_ext and grammar == "diagram" else [])
-                                        + (["alt", "opt_alt", "list_alt", "custom", "opt_custom", "lab", "opt_lab", "list_lab"] if extras else [])))
+                                        + (["alt", "opt_alt", "list_alt", "custom", "opt_custom", "lab", "opt_lab", "list_lab", "trk", "list_trk"] if extras else [])))
             targets = list(range(n)) if allow_self else [x for x in range(n) if x != i]
             if not allow_mutual:
                 targets = [x for x in targets if x >= i] if allow_self else [x for x in targets if x > i]
@@ -339,6 +362,10 @@ def model_ir(draw, max_classes=6, grammar="diagram", allow_self=True, allow_ext=
                 t = {"k": "opt", "of": {"k": "lab"}}
             elif kind == "list_lab":
                 t = {"k": "list", "of": {"k": "lab"}}
+            elif kind == "trk":
+                t = {"k": "trk"}
+            elif kind == "list_trk":
+                t = {"k": "list", "of": {"k": "trk"}}
             elif kind == "custom":
                 t = {"k": "custom"}
             elif kind == "opt_custom":
